@@ -55,6 +55,7 @@ func c10(c *Ctx) {
 		r.Add("BITS.reader", "codecs.(*H264Packet).IsPartitionHead", "FU types 28/29 tested on payload[0] bits 4..0", p.Position(f.Pos()),
 			len(ts) == 2 && ts[0] == 28 && ts[1] == 29, "type constants compared on the masked byte: "+u64s(ts))
 	}
+	minLenRule(c, []minLenRow{{fn: "codecs.(*H264Packet).parseBody", want: []int{1, 2}, why: "a one-byte NAL unit; STAP-A/FU-A need the 2 header octets and an FU payload may be empty (RFC 6184 5.8)"}})
 	r.Floor("H264 layout rows", n, 8)
 	var entries []*ssa.Function
 	for _, nme := range []string{"codecs.(*H264Payloader).Payload", "codecs.(*H264Packet).Unmarshal", "codecs.(*H264Packet).IsPartitionHead"} {
@@ -193,6 +194,7 @@ func c11(c *Ctx) {
 	np := presenceRule(c, "codecs.(*VP8Packet).Unmarshal", []presRow{
 		{"X", []string{"I", "L", "T", "K"}}, {"I", []string{"PictureID"}}, {"L", []string{"TL0PICIDX"}},
 		{"T", []string{"TID", "Y"}}, {"K", []string{"KEYIDX"}}})
+	minLenRule(c, []minLenRow{{fn: "codecs.(*VP8Packet).Unmarshal", want: []int{1, 2, 3, 4, 5, 6}, why: "RFC 7741 4.2: 1 mandatory octet plus X, I(+M), L, T/K octets; the VP8 payload itself may be empty"}})
 	r.Floor("VP8 presence rows", np, 9)
 	var entries []*ssa.Function
 	for _, nme := range []string{"codecs.(*VP8Payloader).Payload", "codecs.(*VP8Packet).Unmarshal", "codecs.(*VP8Packet).IsPartitionHead"} {
@@ -277,6 +279,9 @@ func c12(c *Ctx) {
 		{"I", []string{"PictureID"}}, {"L", []string{"TID", "U", "SID", "D"}}, {"F&P", []string{"PDiff"}}, {"V", []string{"NS", "Y", "G"}}})
 	np += presenceRule(c, "codecs.(*VP9Packet).parseLayerInfo", []presRow{{"!F", []string{"TL0PICIDX"}}})
 	np += presenceRule(c, "codecs.(*VP9Packet).parseSSData", []presRow{{"Y", []string{"Width", "Height"}}, {"G", []string{"NG"}}})
+	minLenRule(c, []minLenRow{
+		{fn: "codecs.(*VP9Packet).Unmarshal", want: []int{1}, minOnly: true, why: "1 mandatory descriptor octet"},
+		{fn: "codecs/vp9.(*Header).Unmarshal", want: []int{1}, minOnly: true, why: "show_existing_frame header fits one octet"}})
 	r.Floor("VP9 presence rows", np, 13)
 	var entries []*ssa.Function
 	for _, nme := range []string{"codecs.(*VP9Payloader).Payload", "codecs.(*VP9Packet).Unmarshal", "codecs.(*VP9Packet).IsPartitionHead", "codecs/vp9.(*Header).Unmarshal"} {
